@@ -52,6 +52,10 @@ var MainInstance *Netceptor
 // indicates whether the error is fatal (i.e. the associated process is going to exit).
 type ErrorFunc func(error, bool)
 
+// ErrNoConnectionToNextHop is returned when the routing table names a next hop whose connection
+// has just gone (the table is recomputed a moment later).
+var ErrNoConnectionToNextHop = fmt.Errorf("no connection to next hop")
+
 // ErrTimeout is returned for an expired deadline.
 var ErrTimeout error = &TimeoutError{}
 
@@ -1310,7 +1314,7 @@ func (s *Netceptor) forwardMessage(md *MessageData) error {
 	c, ok := s.connections[nextHop]
 	s.connLock.RUnlock()
 	if !ok || c.WriteChan == nil {
-		return fmt.Errorf("no connection to next hop")
+		return ErrNoConnectionToNextHop
 	}
 	message, err := s.translateDataFromMessage(md)
 	if err != nil {
